@@ -40,6 +40,9 @@ CHECKS = {
  "C11": dict(tech="exhaustive enumeration of transaction shapes over a 23-symbol alphabet (bounded length) + random longer shapes, executed atomically; per-instruction and commit-time oracle with the reference health model",
    text="Per generated world (account normal / frozen / disabled) every shape up to length 4 (quick) / 5 (thorough) over {flash start naming end index 0..4,9; end for two accounts; big/small borrow; big withdraw; deposit; repay_all; liquidate, bankruptcy, start/end liquidation of the account; transfer; close; start/end/borrow via CPI; compute-budget}: a start that set the flag named a later top-level end of this program for the same account on an unflagged account, no nesting, no liquidation/bankruptcy while flagged; at commit no flag survives and any action that left the account initially unhealthy (reference model) is followed by an end and the account is not unhealthy at commit.",
    ref="DESIGN.md §6 C11"),
+ "C12": dict(tech="PBT (proptest) over all argument shapes of every delegated-admin instruction + field-level diff of the whole account store against per-role allowed-field masks; frozen-bank matrix; deleverage brackets with an independent daily-window model",
+   text="Part A: for each delegated-admin instruction (interest-only, limits-only, e-mode configure/clone, emissions setup/update with SPL / Token-2022 / transfer-fee emission mints, metadata init/write, force-tokenless-complete, purge) all Option combinations, 64-bit flag words (uniform, single bits, emission-bit subsets, mixtures), boundary limits, valid and invalid entries, on banks with live positions and interesting pre-existing flags: after every success the set of changed fields of the target bank must be inside the role's remit and every other account byte-identical. Part B: every per-bank configuration instruction on frozen banks: weights, oracle, curve, tier, cap, state and the freeze bit unchanged. Part C: risk-admin deleverage brackets with generated withdraw sizes/prices around the daily limit and clock gaps of 86 399/86 400/86 401 s: health not worse, markers cleared, sum of per-withdrawal whole dollars within the day window <= limit, no withdrawal outside a bracket.",
+   ref="DESIGN.md §6 C12, Appendix B.3"),
  "C14": dict(tech="exhaustive gating matrix (26 instruction rows x bank states x group-pause columns x expiry timings) evaluated in generated worlds against an expectation table written from the statement",
    text="Per generated world the full matrix is enumerated: 26 financial instruction rows (deposit, withdraw(_all), borrow, repay(_all), liquidate as asset / liability bank, bankruptcy, close_balance, fee and insurance flows, emissions withdrawals, account transfer (+PDA), flash-loan and receivership brackets, accrue, pulse) x {Operational, Paused, ReduceOnly, Killed (real wipe-out path and injected, counted), Killed-then-configure} x 8 group-pause columns (never, active, expired-untouched, expired-cleared, extended, extended-unpropagated, unpropagated, admin-unpaused-stale-cache) x {-1, 0, +1 s} around the cached expiry; each cell executed on a snapshot where the Operational / unpaused baseline succeeds; refusals must leave the store unchanged; acceptance at expiry must not need any propagate/unpause call; ReduceOnly valuation clause checked with the reference health model. Rows that move no funds are executed and counted, not asserted.",
    ref="DESIGN.md §6 C14, Appendix B.4"),
